@@ -101,100 +101,9 @@ let clauses_textdiff h impl =
       ("newline_flag", get ih "nt" = (match nlo with "0" -> "0" | "1" -> "1" | _ -> if kind = "lines" then "1" else "0")) ]
     @ if dl = None then [ ("ops_eq_tokens_diff", get ih "ops" = get ih "direct") ] else []
 
-(* ---------- unified diff parsing (glue) ---------- *)
-(* split rendered text into lines with the CR / LF / CRLF rule of tokenize_lines *)
-let split_rendered (s : string) : string list =
-  let n = String.length s in
-  let out = ref [] and start = ref 0 and k = ref 0 in
-  while !k < n do
-    let c = s.[!k] in
-    if c = '\r' then
-      if !k + 1 < n && s.[!k + 1] = '\n' then (
-        out := String.sub s !start (!k + 2 - !start) :: !out;
-        k := !k + 2;
-        start := !k)
-      else (
-        out := String.sub s !start (!k + 1 - !start) :: !out;
-        incr k;
-        start := !k)
-    else if c = '\n' then (
-      out := String.sub s !start (!k + 1 - !start) :: !out;
-      incr k;
-      start := !k)
-    else incr k
-  done;
-  if !start < n then out := String.sub s !start (n - !start) :: !out;
-  List.rev !out
-
-exception Malformed of string
-
+(* ---------- unified diff parsing: the extracted, verified parse_udiff (Spec/UdiffParse.v;
+   c05_parse_sound: whatever it accepts prints back to exactly the text) ---------- *)
 let bytes_of_string (s : string) : n list = List.init (String.length s) (fun k -> n_of_int (Char.code s.[k]))
-
-let parse_range_hdr (s : string) : int * int =
-  match String.split_on_char ',' s with
-  | [ a ] -> (int_of_string a, 1)
-  | [ a; b ] -> (int_of_string a, int_of_string b)
-  | _ -> raise (Malformed "range")
-
-let marker = "\\ No newline at end of file\n"
-
-(* returns (has_file_header, hunks, marker_ok) *)
-let parse_udiff (txt : string) (want_header : bool) (hint : bool) : bool * hunk list =
-  let lines = split_rendered txt in
-  let lines, had_header =
-    match lines with
-    | a :: b :: r when want_header && a = "--- a\n" && b = "+++ b\n" -> (r, true)
-    | _ -> (lines, false)
-  in
-  let hunks = ref [] in
-  let cur : (int * int * int * int) option ref = ref None and body = ref [] in
-  let flush () =
-    match !cur with
-    | Some (a, b, c, d) ->
-        hunks := { h_oshown = ni a; h_olen = ni b; h_nshown = ni c; h_nlen = ni d; h_body = List.rev !body } :: !hunks;
-        body := []
-    | None -> if !body <> [] then raise (Malformed "body before header")
-  in
-  let rec go = function
-    | [] -> ()
-    | l :: r ->
-        if String.length l >= 4 && String.sub l 0 4 = "@@ -" then (
-          flush ();
-          (* "@@ -a[,b] +c[,d] @@\n" *)
-          (match String.split_on_char ' ' (String.sub l 0 (String.length l - 1)) with
-           | [ "@@"; o; n; "@@" ] when String.length o > 1 && o.[0] = '-' && String.length n > 1 && n.[0] = '+' ->
-               let a, b = parse_range_hdr (String.sub o 1 (String.length o - 1)) in
-               let c, d = parse_range_hdr (String.sub n 1 (String.length n - 1)) in
-               cur := Some (a, b, c, d)
-           | _ -> raise (Malformed "hunk header"));
-          if l.[String.length l - 1] <> '\n' then raise (Malformed "hunk header terminator");
-          go r)
-        else if l = marker then raise (Malformed "stray marker")
-        else if String.length l >= 1 && (l.[0] = ' ' || l.[0] = '-' || l.[0] = '+') then (
-          if !cur = None then raise (Malformed "body line outside a hunk");
-          let tg = match l.[0] with ' ' -> ChEqual | '-' -> ChDelete | _ -> ChInsert in
-          let content = String.sub l 1 (String.length l - 1) in
-          match r with
-          | m :: r' when hint && m = marker ->
-              (* the token lacked a newline: the renderer added "\n" before the marker *)
-              let len = String.length content in
-              if len = 0 || content.[len - 1] <> '\n' then raise (Malformed "marker after unterminated line");
-              let tok = String.sub content 0 (len - 1) in
-              if tok <> "" && (tok.[String.length tok - 1] = '\n' || tok.[String.length tok - 1] = '\r') then
-                raise (Malformed "marker on a line that has a newline");
-              body := (tg, bytes_of_string tok) :: !body;
-              go r'
-          | _ ->
-              let len = String.length content in
-              if len = 0 || not (content.[len - 1] = '\n' || content.[len - 1] = '\r') then
-                raise (Malformed "unterminated body line without marker");
-              body := (tg, bytes_of_string content) :: !body;
-              go r)
-        else raise (Malformed ("unexpected line: " ^ String.escaped l))
-  in
-  go lines;
-  flush ();
-  (had_header, List.rev !hunks)
 
 let clauses_udiff h impl =
   if dead impl then [ ("no_panic", false) ]
@@ -221,15 +130,17 @@ let clauses_udiff h impl =
     (* parse + strict application; for Display on bytes the text is lossy, so the
        application is checked against the lossy lines *)
     let applies =
-      if not hint then []
-      else
-        let lossy_display = via = "display" && bm in
-        let lines t = List.map (fun tk -> let b = tok_bytes t tk in if lossy_display then lossy b else b) (tokenize bm TkLines t) in
-        try
-          let had_header, hunks = parse_udiff (str_of out) header hint in
-          [ ("udiff_wellformed", (out = [] || had_header = header));
-            ("udiff_applies", check_patch radius hunks (lines o) (lines n)) ]
-        with Malformed _ -> [ ("udiff_wellformed", false) ]
+      let lossy_display = via = "display" && bm in
+      let lines t = List.map (fun tk -> let b = tok_bytes t tk in if lossy_display then lossy b else b) (tokenize bm TkLines t) in
+      let hdr = if header then Some (bytes_of_string "a", bytes_of_string "b") else None in
+      match parse_udiff hint hdr out with
+      | None -> [ ("udiff_wellformed", false) ]
+      | Some hunks ->
+          (* hint off: a line without terminator and the same line with "\n" print alike; the parser returns
+             the normalised hunks, which must apply to the normalised lines (c05_render_parse_applies_nohint) *)
+          let nl l = if hint then l else List.map norm_line l in
+          [ ("udiff_wellformed", true);
+            ("udiff_applies", check_patch radius hunks (nl (lines o)) (nl (lines n))) ]
     in
     base @ rel @ applies
 
@@ -466,6 +377,16 @@ let clauses_repeat _h impl =
     let ih = parse_impl impl in
     [ ("no_panic", true); ("deterministic", get ih "all_same" = "1") ]
 
+(* the deadline value seen by the algorithm: absolute deadlines unchanged, timeouts counted from the
+   start of the diff (flags computed by the harness from the similar_verif hook) *)
+let clauses_plumb _h impl =
+  if dead impl then [ ("no_panic", false) ]
+  else
+    let ih = parse_impl impl in
+    let ok k = let v = get ih k in v = "1" || v = "-" in
+    [ ("no_panic", true); ("deadline_plumbed", get ih "seen" = "1");
+      ("deadline_value", get ih "seen" = "1" && ok "exact" && ok "lo" && ok "hi") ]
+
 let clauses (comp : string) (h : (string, string) Hashtbl.t) (impl : string) : (string * bool) list =
   match comp with
   | "tok" -> clauses_tok h impl
@@ -476,6 +397,7 @@ let clauses (comp : string) (h : (string, string) Hashtbl.t) (impl : string) : (
   | "inline" -> clauses_inline h impl
   | "identify" -> clauses_identify h impl
   | "repeat" -> clauses_repeat h impl
+  | "plumb" -> clauses_plumb h impl
   | "close" -> clauses_close h impl
   | "utf8" | "ws" -> if dead impl then [ ("no_panic", false) ] else [ ("no_panic", true) ]
   | _ -> []
